@@ -136,7 +136,10 @@ def generate(prop, rng):
                             # "no target": the path is no longer wanted at all and is to be removed
                             "no_target": rng.random() < 0.15,
                             # a workspace file cannot be opened for reading while the workspace is looked at
-                            "read_fault": ({"nth": rng.randint(1, 4), "exc": "EACCES"} if rng.random() < 0.15 else None)})
+                            "read_fault": ({"nth": rng.randint(1, 4), "exc": "EACCES"} if rng.random() < 0.15 else None),
+                            # round 7: the user replaces one of the files this very checkout has written, after
+                            # the last file is in place and before the checkout records what it has written
+                            "mid_edit": ({"pick": rng.randrange(8), "tag": rng.randrange(1000)} if rng.random() < 0.3 else None)})
     else:
         for _ in range(rng.randint(4, 12)):
             o = gen.weighted(rng, [(3, "materialise"), (3, "save_link"), (4, "user_write"), (2, "user_delete"),
@@ -356,6 +359,37 @@ def _exec_c05_checkout(sc, ctx, env):
             if op.get("read_fault") and not op["force"]:
                 ctx.seam.faults = [{"at": ("open_r",), "match": "ws/", "sub": True, "nth": op["read_fault"]["nth"],
                                     "exc": op["read_fault"]["exc"], "name": "ws_read", "count": 1, "sticky": True}]
+            if op.get("mid_edit") and env.state is not None:
+                real_save_many = env.state.save_many
+
+                import dvc_data.hashfile.checkout as _co
+
+                real_inner = _co._checkout
+                writing = []
+
+                def inner_hook(*a, _real=real_inner, **kw):
+                    # (the state is also written while the workspace is being looked at, before anything is
+                    # changed: only the call made by the writing phase is the instant meant here)
+                    writing.append(1)
+                    try:
+                        return _real(*a, **kw)
+                    finally:
+                        writing.pop()
+
+                _co._checkout = inner_hook
+
+                def save_many_hook(items, fs_, _me=op["mid_edit"], _real=real_save_many):
+                    items = list(items)
+                    if not writing:
+                        return _real(items, fs_)
+                    mine = sorted(it[0] for it in items if os.path.isfile(it[0]) or os.path.islink(it[0]))
+                    if mine:
+                        # a second actor: atomic replacement at a later simulated time by bytes no cache holds
+                        env.user_write(mine[_me["pick"] % len(mine)], b"mid-edit-%d" % _me["tag"])
+                        ctx.probe("file_replaced_between_writing_and_recording")
+                    return _real(items, fs_)
+
+                env.state.save_many = save_many_hook
             try:
                 checkout(
                     path, env.w.localfs, target_obj, env.odb, force=op["force"], relink=op["relink"],
@@ -365,6 +399,9 @@ def _exec_c05_checkout(sc, ctx, env):
                 raised = exc
             finally:
                 ctx.seam.faults = []
+                if op.get("mid_edit") and env.state is not None:
+                    del env.state.save_many
+                    _co._checkout = real_inner
             if op["force"]:
                 continue
             after = model.files_of(model.snapshot(path))
